@@ -23,6 +23,7 @@ type Case struct {
 	Tree   *ref.Node `json:"tree"`
 	Reroot int       `json:"reroot"` // -1 or selector of the inner node the (unrooted) tree is re-rooted at first
 	CLI    bool      `json:"cli,omitempty"`
+	Listed bool      `json:"listed,omitempty"` // also: collect every proposal first, apply / undo them after the enumeration has returned
 }
 
 func genCase(t *rapid.T, thorough bool) Case {
@@ -35,6 +36,7 @@ func genCase(t *rapid.T, thorough bool) Case {
 		c.Reroot = rapid.IntRange(0, 1000).Draw(t, "rrat")
 	}
 	c.CLI = cli.Available() && c.Reroot < 0 && rapid.IntRange(0, 19).Draw(t, "cli") == 0
+	c.Listed = rapid.Bool().Draw(t, "listed")
 	return c
 }
 
@@ -206,6 +208,29 @@ func run(c Case) (info, error) {
 	if got := t.Newick(); got != before {
 		return inf, fmt.Errorf("tree changed after the full enumeration:\n before %s\n after  %s", before, got)
 	}
+	if c.Listed {
+		// a search lists the moves first and tries them afterwards: every proposal handed to the
+		// callback must stay the move it was
+		var kept []tree.Rearrangement
+		(&tree.NNIRearranger{}).Rearrange(t, func(r tree.Rearrangement) bool {
+			kept = append(kept, r)
+			return true
+		})
+		if len(kept) != len(texts) {
+			return inf, fmt.Errorf("second enumeration proposes %d rearrangements, the first one %d\n tree %s", len(kept), len(texts), before)
+		}
+		for k, r := range kept {
+			if err := r.Apply(); err != nil {
+				return inf, fmt.Errorf("proposal %d kept after the enumeration: Apply failed: %v", k, err)
+			}
+			if got := t.Newick(); got != texts[k] {
+				return inf, fmt.Errorf("proposal %d kept after the enumeration gives %s, inside the enumeration it gave %s\n original %s", k, got, texts[k], before)
+			}
+			if err := r.Undo(); err != nil || t.Newick() != before {
+				return inf, fmt.Errorf("proposal %d kept after the enumeration: Undo does not restore the tree (%v): %s", k, err, t.Newick())
+			}
+		}
+	}
 	if c.CLI && !strings.ContainsAny(before, "\r\n") { // the command reads its input line by line
 		// the command handles a stream of trees: the same tree twice must give the list twice
 		dir := cli.Scratch()
@@ -235,7 +260,7 @@ func run(c Case) (info, error) {
 func TestC17NNI(t *testing.T) {
 	h.Run(t, h.Spec[Case]{
 		Property: "C17", Name: "nni", Quick: 6000, Thorough: 320000,
-		Rule: "binary trees (4..12 tips, 5% up to 30/100; rooted with a root of degree 2 or unrooted; lengths, supports, inner names, comments), unrooted ones optionally re-rooted at another inner node first; full enumeration of NNIRearranger: count = 2 x branches whose ends both have three neighbours (= 2(n-3) unrooted), after Apply: structural invariant, same tips, exactly one split out and one in, lengths of all other splits unchanged, canonical topology different from the original and from every other neighbour, second Apply is a no-op; Undo restores byte-identical text, Undo without Apply is a no-op; text unchanged after the enumeration; 5% of the cases compare `gotree nni` with the library's list; non-trivial = >= 6 tips",
+		Rule: "binary trees (4..12 tips, 5% up to 30/100; rooted with a root of degree 2 or unrooted; lengths, supports, inner names, comments), unrooted ones optionally re-rooted at another inner node first; full enumeration of NNIRearranger: count = 2 x branches whose ends both have three neighbours (= 2(n-3) unrooted), after Apply: structural invariant, same tips, exactly one split out and one in, lengths of all other splits unchanged, canonical topology different from the original and from every other neighbour, second Apply is a no-op; Undo restores byte-identical text, Undo without Apply is a no-op; text unchanged after the enumeration; in half of the cases all proposals of a second enumeration are kept and applied / undone after it has returned (same neighbours in the same order); 5% of the cases compare `gotree nni` with the library's list; non-trivial = >= 6 tips",
 		Gen: genCase, Check: check,
 		Classify: func(c Case) (bool, []string) {
 			var l []string
@@ -252,5 +277,95 @@ func TestC17NNI(t *testing.T) {
 			}
 			return len(c.Tree.Tips()) >= 6, l
 		},
+	})
+}
+
+// ---------------------------------------------------------------------------------------
+// command level, large trees: the neighbour list of a tree with 70-140 tips is 140-270 trees of
+// several kB each (more than 256 kB of output)
+
+type LargeCase struct {
+	Tree   *ref.Node `json:"tree"`
+	Twice  bool      `json:"twice"`
+	ToFile bool      `json:"to_file"`
+}
+
+func checkLarge(c LargeCase) error {
+	if !cli.Available() {
+		return fmt.Errorf("harness: gotree binary not built")
+	}
+	t, err := gt.FromModel(c.Tree)
+	if err != nil {
+		return err
+	}
+	before := t.Newick()
+	var texts []string
+	var ferr error
+	(&tree.NNIRearranger{}).Rearrange(t, func(r tree.Rearrangement) bool {
+		if err := r.Apply(); err != nil {
+			ferr = err
+			return false
+		}
+		texts = append(texts, t.Newick())
+		if err := r.Undo(); err != nil {
+			ferr = err
+			return false
+		}
+		return true
+	})
+	if ferr != nil {
+		return ferr
+	}
+	if want := expectedCount(c.Tree); len(texts) != want {
+		return fmt.Errorf("%d rearrangements proposed, expected %d", len(texts), want)
+	}
+	in := before + "\n"
+	if c.Twice {
+		in += before + "\n"
+		texts = append(append([]string{}, texts...), texts...)
+	}
+	dir := cli.Scratch()
+	args := []string{"nni"}
+	if c.ToFile {
+		args = append(args, "-o", "nni.out")
+	}
+	r := cli.Run(dir, in, args...)
+	if r.Code != 0 || r.TimedOut {
+		return fmt.Errorf("gotree nni exited with %d: %s", r.Code, r.Stderr)
+	}
+	out := r.Stdout
+	if c.ToFile {
+		out = cli.Read(dir, "nni.out")
+	}
+	got := strings.Split(strings.TrimRight(out, "\n"), "\n")
+	if len(got) != len(texts) {
+		return fmt.Errorf("gotree nni writes %d lines (%d bytes) for a tree with %d tips, expected %d neighbours", len(got), len(out), len(c.Tree.Tips()), len(texts))
+	}
+	for i := range got {
+		if got[i] != texts[i] {
+			return fmt.Errorf("gotree nni: line %d of %d (output of %d bytes) is not neighbour %d of the library:\n cli %s\n lib %s", i, len(got), len(out), i, clip(got[i]), clip(texts[i]))
+		}
+	}
+	return nil
+}
+
+func clip(s string) string {
+	if len(s) > 400 {
+		return s[:400] + "..."
+	}
+	return s
+}
+
+func TestC17CliLarge(t *testing.T) {
+	h.Run(t, h.Spec[LargeCase]{
+		Property: "C17", Name: "cli-large", Quick: 24, Thorough: 480,
+		Rule: "`gotree nni` (stdout or -o file, the tree once or twice in the stream) on binary trees with 70-140 tips, lengths and supports: the output (0.3-2 MB) must be exactly the library's neighbour list, line by line; every case is non-trivial",
+		Gen: func(t *rapid.T, thorough bool) LargeCase {
+			n := rapid.IntRange(70, 140).Draw(t, "ntips")
+			o := gen.Opts{MinTips: n, MaxTips: n, NoOver64: true, Rooted: -1, MaxDeg: 2, Lens: gen.All, LenVals: gen.Arbitrary, Sups: gen.AnyPresence}
+			return LargeCase{Tree: gen.Tree(t, o), Twice: rapid.Bool().Draw(t, "twice"), ToFile: rapid.Bool().Draw(t, "tofile")}
+		},
+		Check:    checkLarge,
+		Classify: func(c LargeCase) (bool, []string) { return true, []string{fmt.Sprintf("twice=%v", c.Twice), fmt.Sprintf("tofile=%v", c.ToFile)} },
 	})
 }
